@@ -272,8 +272,15 @@ def run(tier: str, seed: int, st: core.ProofStatus) -> core.Result:
             lines = base.split("\n")
             bad_files = [(f"src/cut/prefix_{k:03d}.{lang}", ("\n".join(lines[:k]) + ("\n" if k % 2 else "")).encode("utf-8")) for k in range(1, len(lines))]
             kind = "prefix_sweep"
+        elif i == 3 or (i >= len(kinds_cycle) and rng.random() < 0.03):
+            # shebang sweep: every shebang shape on extension-less / oddly named scripts, all in one run
+            base, _pl, _meta = gen_file(rng, "py", "sb", n_units=3, layout=False)
+            firsts = ["#!/usr/bin/env python3", "#!/bin/sh -c 'exec python", '#!/usr/bin/env "python', "#!", "#!/usr/bin/python -u 'x", "#! /usr/bin/env node", "#!/bin/bash",
+                      "#!/usr/bin/env python3 " + "x" * 10000, "#!/usr/bin/env python3\\", "#!\t/usr/bin/env\tpython3 \"", "#!/usr/bin/env -S python3 -O '"]
+            bad_files = [(f"src/scripts/tool_{k}{ext}", (first + "\n" + base).encode("utf-8")) for k, first in enumerate(firsts) for ext in ("", ".cgi")]
+            kind = "shebang_sweep"
         else:
-            name, data, kind = mutate(rng, kinds_cycle[i - 3] if i - 3 < len(kinds_cycle) else None)       # every kind at least once per run
+            name, data, kind = mutate(rng, kinds_cycle[i - 4] if 0 <= i - 4 < len(kinds_cycle) else None)       # every kind at least once per run
             bad_files = [(name, data)]
         cmds = rng.sample(COMMANDS, 2)
         cases.append((healthy, bad_files, kind, cmds))
